@@ -13,6 +13,7 @@ RULE = ('Hypothesis draws (T, v) from U (without ANY, whose contents are opaque 
         'with the guiding type and, when T has no IMPLICIT tag, without it. Control arm: der.decode(e) and ber.decode(e\') return '
         'v. Non-trivial = the rewritten node is nested, tagged, or decoded under a guiding type; distinct = distinct (e\', decoder, '
         'guided?).')
+RULE += (' ' + 'Also: native=True; one caller-owned partial typeMap= dict serving ber.decode and then the strict decoder; the strict decoder as a suspended StreamingDecoder (input in two bursts) while ber.decode works on the same octets in between; rewrites inside the payload of a resolved open type field.')
 ASSUMPTIONS = ['the rewritten encoding is a legal BER encoding of the same value (checked with pv/core/x690.py on every case)']
 SHARDS = {'quick': (16, 120), 'thorough': (16, 3000)}
 BUDGET = {'quick': 100, 'thorough': 1500}
